@@ -1,0 +1,81 @@
+//go:build verif
+
+package sample
+
+import (
+	"fmt"
+
+	dynsampler "github.com/honeycombio/dynsampler-go"
+)
+
+// Verification hooks (build tag `verif` only; add-only accessors, no behaviour
+// change). They expose which dynsampler-go instance (the rate-tracking state)
+// sits behind a Sampler, so that a check can compare identities, and the goal
+// throughput currently in force on throughput dynsamplers.
+
+// VerifDynRef describes one dynsampler-go instance reachable from a Sampler.
+type VerifDynRef struct {
+	// Path is "" for the sampler itself and "rule[i]" for the downstream
+	// sampler of the i-th rule of a RulesBasedSampler (looked up exactly the
+	// way GetSampleRate looks it up).
+	Path string
+	// Kind is dynamic, emadynamic, totalthroughput, emathroughput,
+	// windowedthroughput, or "missing" when a rule has a downstream sampler
+	// configured but none is registered for it.
+	Kind string
+	// Dyn is the dynsampler-go instance pointer (comparable with ==).
+	Dyn any
+	// HasGoal is set for throughput dynsamplers; Goal is GoalThroughputPerSec.
+	HasGoal bool
+	Goal    float64
+}
+
+// VerifDynsamplers lists the dynsampler-go instances behind s (none for a
+// deterministic sampler), including rule downstream samplers.
+func VerifDynsamplers(s Sampler) []VerifDynRef {
+	switch t := s.(type) {
+	case *DynamicSampler:
+		return []VerifDynRef{{Kind: "dynamic", Dyn: t.dynsampler}}
+	case *EMADynamicSampler:
+		return []VerifDynRef{{Kind: "emadynamic", Dyn: t.dynsampler}}
+	case *TotalThroughputSampler:
+		return []VerifDynRef{{Kind: "totalthroughput", Dyn: t.dynsampler, HasGoal: true, Goal: verifGoal(t.dynsampler)}}
+	case *EMAThroughputSampler:
+		return []VerifDynRef{{Kind: "emathroughput", Dyn: t.dynsampler, HasGoal: true, Goal: verifGoal(t.dynsampler)}}
+	case *WindowedThroughputSampler:
+		return []VerifDynRef{{Kind: "windowedthroughput", Dyn: t.dynsampler, HasGoal: true, Goal: verifGoal(t.dynsampler)}}
+	case *RulesBasedSampler:
+		var out []VerifDynRef
+		for i, rule := range t.Config.Rules {
+			if rule == nil || rule.Sampler == nil {
+				continue
+			}
+			path := fmt.Sprintf("rule[%d]", i)
+			ds, found := t.samplers[rule.String()]
+			if !found || ds == nil {
+				out = append(out, VerifDynRef{Path: path, Kind: "missing"})
+				continue
+			}
+			for _, r := range VerifDynsamplers(ds) {
+				r.Path = path
+				out = append(out, r)
+			}
+		}
+		return out
+	}
+	return nil
+}
+
+// verifGoal reads GoalThroughputPerSec (a plain exported field of the
+// dynsampler-go types). Callers must not race it with peer-count callbacks.
+func verifGoal(d dynsampler.Sampler) float64 {
+	switch t := d.(type) {
+	case *dynsampler.TotalThroughput:
+		return float64(t.GoalThroughputPerSec)
+	case *dynsampler.EMAThroughput:
+		return float64(t.GoalThroughputPerSec)
+	case *dynsampler.WindowedThroughput:
+		return t.GoalThroughputPerSec
+	}
+	return -1
+}
